@@ -42,6 +42,9 @@ def gen_cases(ctx):
         times += [start - dt, start - 0.25 * dt, start + n * dt, start + (n + 3) * dt]  # outside
         cases.append({"kind": "custom", "signal": sig, "dt": dt, "start": start, "outside": rng.choice([0.0, 7.5]),
                       "mode": ("linear", "nearest")[i % 2], "times": times})
+        if i % 5 == 0:      # the same with a complex-valued signal (predicate only): real and imaginary parts are sampled independently
+            cases.append({"kind": "custom_c", "signal": sig, "signal_im": [rng.randint(-32, 32) / 8.0 for _ in range(n)], "dt": dt, "start": start,
+                          "outside": 0.0, "mode": ("linear", "nearest")[(i // 5) % 2], "times": times})
     for i in range(ctx.pick(20, 120)):
         period = rng.uniform(1, 5) * 1e-15
         nstart = rng.choice([1, 2, 4, 7])
@@ -89,6 +92,8 @@ def coq_expr(case, out):
     if "crash" in out:
         return "false"
     k = case["kind"]
+    if k == "custom_c":
+        return None
     if k == "wave":
         w = wave_coq(case)
         return (f"(rel_close (q 1 1000000000000) (get_period QcOF C0 {w}) {qlit(out['period'])} && "
@@ -129,6 +134,21 @@ def predicate(case, out):
             return (tag, f"the given {case['form']} {case['value']!r} is returned as {given!r}")
         return None
     amp = [fx(a) if a != "nan" else float("nan") for a in out["amp"]]
+    if k == "custom_c":
+        if not out.get("is_complex"):
+            return (tag, "a complex-valued custom signal is returned as a real array (imaginary part lost)")
+        dt, st, n = case["dt"], case["start"], len(case["signal"])
+        for part, sig, vals in (("real", case["signal"], amp), ("imaginary", case["signal_im"], [fx(a) for a in out["amp_im"]])):
+            for t, a in zip(case["times"], vals):
+                x = (t - st) / dt; i = math.floor(x); fr = x - i
+                if i < 0 or i >= n:
+                    exp = case["outside"] if part == "real" else 0.0
+                else:
+                    y0, y1 = sig[i], sig[min(i + 1, n - 1)]
+                    exp = ((1 - fr) * y0 + fr * y1) if case["mode"] == "linear" else (y0 if fr < 0.5 else y1)
+                if a != exp:
+                    return (tag, f"complex custom signal, {part} part at t={t}: {a!r}, expected {exp!r}")
+        return None
     if k == "custom":
         sig, dt, st, n = case["signal"], case["dt"], case["start"], len(case["signal"])
         for t, a in zip(case["times"], amp):
